@@ -635,7 +635,9 @@ fn run(args: &Args) -> i32 {
                     let mutating = route.method != "GET";
                     let body: Option<&[u8]> = if route.method == "POST" { Some(b"{}") } else { None };
                     let fp_ca: Option<String> = if route.per_ca && (*ca == "ca1" || *ca == "ca2") { Some(ca.to_string()) } else { None };
-                    let is_listing = route.filter.is_some() && route.method == "GET";
+                    // listing endpoints are named by the specification (Routes.v: `listing`), not taken from the
+                    // generated table: a handler that stops filtering must not switch the observation off
+                    let is_listing = route.method == "GET" && (route.path == "/api/v1/cas" || route.path == "/api/v1/bulk/cas/issues");
                     let mut k = 0u64;
                     for (client_is_unix, c) in callers.iter().map(|c| (false, c)).chain(ucallers.iter().map(|c| (true, c))) {
                         k += 1;
